@@ -397,6 +397,49 @@ func c14(repo string, out *fg.Out) error {
 		bs2[i] = fmt.Sprint(b)
 	}
 	fmt.Fprintf(L, "def skipTestOnResolvedName : List Bool := [%s]\n", strings.Join(bs2, ", "))
+	// ---- repairs of round 2 (each is a structural fact; a regression flips it and breaks C14_repairs_in_place)
+	// (a) the `seen` key of bare references: "default." + tableName (case-exact) vs + table (lower-cased)
+	foldsCase := strings.Contains(etxt, `key := "default." + table`+"\n")
+	exactCase := strings.Count(etxt, `key := "default." + tableName`) == 2
+	if foldsCase == exactCase {
+		return fmt.Errorf("extractTableReferences: cannot classify the seen key of bare references")
+	}
+	fmt.Fprintf(L, "def seenKeyFoldsCase : Bool := %v\n", foldsCase)
+	// (b) isSingleTableQuery guards the fast path with the extractor's own regex + CTE names
+	_, ist := fg.FindFunc(api, "", "isSingleTableQuery")
+	if ist == nil {
+		return fmt.Errorf("isSingleTableQuery not found")
+	}
+	fmt.Fprintf(L, "def fastPathGuarded : Bool := %v\n", len(fg.CallsNamed(ist, "FindAllStringIndex")) == 1 && len(fg.CallsNamed(ist, "extractCTENames")) == 1)
+	// (c) masker: comments are skipped; unmask is single-pass; FROM-mask prefix is fresh; dollar tags accept >= 0x80
+	mfd0 := mask.FuncDecl("", "MaskStringLiterals")
+	if mfd0 == nil {
+		return fmt.Errorf("MaskStringLiterals not found")
+	}
+	mtxt := mask.Text(mfd0)
+	fmt.Fprintf(L, "def maskerSkipsComments : Bool := %v\n", strings.Contains(mtxt, "sql[i+1] == '-'") && strings.Contains(mtxt, "depth"))
+	ufd := mask.FuncDecl("", "UnmaskStringLiterals")
+	if ufd == nil {
+		return fmt.Errorf("UnmaskStringLiterals not found")
+	}
+	fmt.Fprintf(L, "def unmaskSinglePass : Bool := %v\n", len(fg.CallsNamed(ufd, "NewReplacer")) == 1 && len(fg.CallsNamed(ufd, "Replace")) == 1 && len(fg.CallsNamed(ufd, "ReplaceAll")) == 0)
+	ffd := mask.FuncDecl("", "MaskFromKeywordsInFunctionBodies")
+	if ffd == nil {
+		return fmt.Errorf("MaskFromKeywordsInFunctionBodies not found")
+	}
+	ftxt := mask.Text(ffd)
+	fmt.Fprintf(L, "def fromMaskPrefixFresh : Bool := %v\n", strings.Contains(ftxt, "for strings.Contains(sql, prefix)"))
+	dfd := mask.FuncDecl("", "dollarQuoteTag")
+	if dfd == nil {
+		return fmt.Errorf("dollarQuoteTag not found")
+	}
+	fmt.Fprintf(L, "def dollarTagNonAscii : Bool := %v\n", strings.Contains(mask.Text(dfd), "c >= 0x80"))
+	// (d) ioDenylistNormalise masks before exposing identifier names (no quote stripping on the raw text)
+	_, ion := fg.FindFunc(api, "", "ioDenylistNormalise")
+	if ion == nil {
+		return fmt.Errorf("ioDenylistNormalise not found")
+	}
+	fmt.Fprintf(L, "def denylistMasksFirst : Bool := %v\n", len(fg.CallsNamed(ion, "NewReplacer")) == 0 && len(fg.CallsNamed(ion, "IdentifierNames")) == 1)
 	// transform-cache key: `cacheKey := headerDB + <sep> + sql`, assigned exactly once (unconditionally)
 	var keyAssigns []ast.Expr
 	ast.Inspect(gt.Body, func(n ast.Node) bool {
